@@ -34,7 +34,7 @@ def prober(cfg):
     return p
 
 
-def gen_case(rng, ctx, kind=None):
+def gen_case(rng, ctx, kind=None, n_events=None):
     kind = kind or state.CMS_KINDS[int(rng.integers(0, 3))]
     w = int(rng.integers(1, 4)) if rng.random() < 0.6 else int(rng.integers(4, 17))
     d = int(rng.integers(1, 7))
@@ -46,7 +46,7 @@ def gen_case(rng, ctx, kind=None):
         cfg["max_count"] = pick(rng, [300, 1000, 5000, 10**6, 2**32 - 1])
         cfg["num_reserved"] = pick(rng, [0, 1, 5, 15, 60])
     keys = key_family(rng, int(rng.integers(2, 10)), 0, 10)
-    n_ev = int(rng.integers(5, 50))
+    n_ev = n_events or int(rng.integers(5, 50))
     events = []
     n_self = 0
     for _ in range(n_ev):
@@ -228,6 +228,12 @@ def gen_cases(ctx):
     for kind in state.CMS_KINDS:
         for rep in range(2 if ctx.quick else 6):
             yield {"type": "threads", "kind": kind, "threads": 8, "adds": 300, "seed": int(rng.integers(0, 2**31))}
+    # long-lived objects: one history of 4000 events per counter type (anything that ages - caches, pointers, counters of calls)
+    for kind in state.CMS_KINDS:
+        if ctx.quick or ctx.shard % 3 == state.CMS_KINDS.index(kind):
+            c = gen_case(rng, ctx, kind, n_events=4000)
+            c["long"] = True
+            yield c
     n = 3000 if ctx.quick else 10**9
     for i in range(n):
         yield gen_case(rng, ctx, state.CMS_KINDS[i % 3])
